@@ -179,6 +179,10 @@ def directed_docs():
         "String DynamicValue without adjustment": ir.PType("X_T", "string", ir.StrEnc("UTF-8", ir.DynLen("LEN", True, None, None))),
         "String DiscreteLookupList": ir.PType("X_T", "string", ir.StrEnc("UTF-8", ir.Lookup((((ir.Comparison("LEN", "3", "<", False),), 8), ((ir.Comparison("LEN", "3", ">="), ir.Comparison("TYPE", "0")), 24))))),
         "Binary DynamicValue@useCalibratedValue=false": ir.PType("X_T", "binary", ir.BinEnc(ir.DynLen("LEN", False, None, None))),
+        "Binary FixedValue=0": ir.PType("X_T", "binary", ir.BinEnc(0)),
+        "Binary FixedValue=1": ir.PType("X_T", "binary", ir.BinEnc(1)),
+        "Binary LinearAdjustment slope 1": ir.PType("X_T", "binary", ir.BinEnc(ir.DynLen("LEN", False, 1, 8))),
+        "Binary LinearAdjustment intercept 0": ir.PType("X_T", "binary", ir.BinEnc(ir.DynLen("LEN", False, 8, 0))),
         "Binary LinearAdjustment": ir.PType("X_T", "binary", ir.BinEnc(ir.DynLen("LEN", True, 8, 3))),
         "Binary LinearAdjustment intercept only": ir.PType("X_T", "binary", ir.BinEnc(ir.DynLen("LEN", True, 1, 5))),
         "Binary DiscreteLookupList": ir.PType("X_T", "binary", ir.BinEnc(ir.Lookup((((ir.Comparison("LEN", "1"),), 5), ((ir.Comparison("LEN", "1", "!="),), 16))))),
